@@ -150,6 +150,23 @@ impl Vp {
                 Ok(()) => self.state(),
                 Err(_) => "err".into(),
             },
+            ["hopen", id, h] => {
+                // a directory holding the one value-log file `id` with the given bytes: open it (the file is the
+                // one with the highest id, so the writer opens it too), report what the file is afterwards
+                let id: u32 = id.parse().unwrap();
+                let d = self.fresh();
+                let vd = d.join("vlog");
+                std::fs::create_dir_all(&vd).unwrap();
+                let bytes = if *h == "-" { vec![] } else { hex_to_bytes(h) };
+                std::fs::write(vd.join(format!("{:020}.vlog", id)), &bytes).unwrap();
+                match fv::Log::open(&d, 4096, true) {
+                    Err(_) => "refuse".into(),
+                    Ok(l) => match l.file_bytes(id) {
+                        Ok(f) => format!("ok:{}:{}", f.len(), bytes_to_hex(&f[..f.len().min(10)])),
+                        Err(e) => format!("err:{}", e.replace(' ', "_")),
+                    },
+                }
+            }
             ["reopen"] => {
                 if let Some(l) = self.log.take() {
                     if l.close().is_err() {
